@@ -84,6 +84,15 @@ def exec_state(tr) -> Optional[List[bool]]:
     return None
 
 
+def obs_state(tr) -> Dict[str, Any]:
+    """running flags and the session's execution switch at an observation point (recorded together with exec_state)."""
+    if not tr.options.get("exec_state"):
+        return {}
+    sim = tr.sim
+    return {"running": [m.is_running for m in sim.markets],
+            "sess_exec": sim.current_session.with_order_execution if sim.current_session is not None else None}
+
+
 def order_fields(o: Order) -> Dict[str, Any]:
     return {"agent_id": o.agent_id, "market_id": o.market_id, "is_buy": o.is_buy, "kind": o.kind.name, "volume": o.volume,
             "price": o.price, "ttl": o.ttl, "order_id": o.order_id, "placed_at": o.placed_at}
@@ -163,7 +172,7 @@ class _Recording:
         tr = T()
         tr.add("consult", agent=self.agent_id, hft=isinstance(self, HighFrequencyAgent), n=len(out), raw=list(out),
                snap=[order_fields(o) if isinstance(o, Order) else {"cancel_of": (o.order.market_id, o.order.order_id)} for o in out],
-               times=times(tr.sim), executable=exec_state(tr))
+               times=times(tr.sim), executable=exec_state(tr), **obs_state(tr))
 
     def submitted_order(self, log):
         T().add("cb.submitted", agent=self.agent_id, log=log)
@@ -333,7 +342,7 @@ class VProbeEvent(EventABC):
         m = simulator.id2market[order.market_id]
         in_book = any(o is order for o in m.buy_order_book.priority_queue) or any(o is order for o in m.sell_order_book.priority_queue)
         self._r("order_before", order=order, snap=order_fields(order), p0=m.get_market_price(0), mp=m.get_market_price(),
-                in_book=in_book, fund=m.get_fundamental_price(), executable=exec_state(T()))
+                in_book=in_book, fund=m.get_fundamental_price(), executable=exec_state(T()), **obs_state(T()))
         if self.rewrite:
             if order.price is not None and "price_mult" in self.rewrite:
                 order.price = order.price * self.rewrite["price_mult"]
@@ -346,7 +355,7 @@ class VProbeEvent(EventABC):
 
     def hooked_before_cancel(self, simulator, cancel):
         self._r("cancel_before", cancel=cancel, canceled_already=cancel.order.is_canceled, placed_at=cancel.placed_at,
-                executable=exec_state(T()))
+                executable=exec_state(T()), **obs_state(T()))
 
     def hooked_after_cancel(self, simulator, cancel_log):
         self._r("cancel_after", log=cancel_log)
